@@ -343,6 +343,11 @@ class Fallibility:
             bodies = [b for b in bodies if b is not None]
             if bodies and all(self.fn_infallible(b.key) for b in bodies):
                 return True
+        # try_for_each / try_fold fail exactly when the closure they run fails
+        if call.is_(r'^std::iter::Iterator::(try_for_each|try_fold)$'):
+            cl = closure_args(F, call)
+            if cl and all(self.fn_infallible(cb.key) for (_i, cb, _rv) in cl):
+                return True
         # Option<Result<..>>::transpose forwards the error of the Result inside the Option it is given
         if call.is_(r'^std::option::Option::<std::result::Result<T, E>>::transpose$') and call.args and is_place(call.args[0]):
             return self.value_infallible(call.body, op_local(call.args[0]))
@@ -767,6 +772,8 @@ PANIC_CALLS = [
     (r'^std::string::String::(remove|insert|insert_str|split_off|drain|replace_range|truncate)$', 'string-op'),
     (r'^std::iter::Iterator::step_by$', 'step_by'),
     (r'^std::cell::RefCell::<T>::(borrow|borrow_mut)$', 'refcell'),
+    # crypto_core 10.3.0: `self.readable.split_at(len)` with the announced length, unchecked (read_vec uses read_exact instead)
+    (r"^cosmian_crypto_core::bytes_ser_de::Deserializer::<'a>::read_vec_as_ref$", 'lib-panic'),
 ]
 
 
@@ -912,6 +919,23 @@ def len_at_least_edges(body, roots, need):
                     te, fe = bool_edges(body, sb, neg)
                     if fe is not None:
                         edges.append(fe)
+    # `x.get(..N)` / `x.get(N..)` is Some only when len(x) >= N: the Some edge of a match on it, the continue edge of a `?`
+    # on it or on its `ok_or(..)`
+    for c in body.calls(r'core::slice::<impl \[T\]>::get$'):
+        if len(c.args) != 2 or not (roots_of(body, c.args[0]) & roots):
+            continue
+        ra = range_arg(body, c.args[1])
+        if ra is None:
+            continue
+        consts = [v[1] for v in ra[2] if v[0] == 'const' and v[1] is not None]
+        if len(consts) != len(ra[2]) or not consts or max(consts) < need:
+            continue
+        edges += present_edges(body, c)
+        for k in body.calls(r'^std::option::Option::<T>::ok_or(_else)?$'):
+            if k.args and is_place(k.args[0]):
+                cur, d = resolve_copy(body, op_local(k.args[0]))
+                if cur == c.dest['l'] or (d is not None and d.kind == 'call' and d.call is c):
+                    edges += present_edges(body, k)
     for cmp_ in comparisons(body):
         ca, cb = classify_scalar(body, cmp_['a']), classify_scalar(body, cmp_['b'])
         op = cmp_['op']
@@ -992,8 +1016,8 @@ def const_splits(body):
     `x.split_at(N)` contributes ('RangeTo', (N,)) when its .0 is read and ('RangeFrom', (N,)) when its .1 is."""
     from .facts import field_path
     out = []
-    for c in body.calls(r'^std::ops::Index(Mut)?::index(_mut)?$'):
-        ra = range_arg(body, c.args[1])
+    for c in body.calls(r'^std::ops::Index(Mut)?::index(_mut)?$', r'core::slice::<impl \[T\]>::get(_mut)?$'):
+        ra = range_arg(body, c.args[1]) if len(c.args) == 2 else None
         if ra:
             out.append((ra[0], tuple(v[1] for v in ra[2]), c))
     for c in body.calls(r'core::slice::<impl \[T\]>::split_at(_mut)?$'):
@@ -1420,3 +1444,131 @@ def _places_in(x):
         for v in x:
             out += _places_in(v)
     return out
+
+
+def forward_uses(body, l, through=(r'^std::ops::Try::branch$',)):
+    """Forward closure of a value: locals that hold (part of) what local `l` holds, or a reference to it — through moves, copies,
+    field reads, references, casts, aggregates and the calls named in `through` — and what happens to them:
+    (S, sinks) where sinks = [(kind, detail, line)] with kind in 'call' (detail = (Call, arg index)), 'return', 'stored' (written
+    into a place of another local), 'captured' (moved into a closure)."""
+    S = {l}
+    sinks = []
+    changed = True
+    while changed:
+        changed = False
+        for b in sorted(body.live_blocks()):
+            if body.cleanup[b]:
+                continue
+            for st in body.stmts(b):
+                rv = st['rv']
+                used = False
+                for pl in _places_in(rv):
+                    if pl['l'] in S:
+                        used = True
+                if not used:
+                    continue
+                tl = st['lhs']['l']
+                if st['lhs']['p'] and tl not in S:
+                    # stored inside another value: that value now holds it
+                    pass
+                if tl not in S:
+                    S.add(tl)
+                    changed = True
+            t = body.term(b)
+            if t['k'] == 'call':
+                c = body.call_at(b)
+                if any(is_place(a) and op_local(a) in S for a in c.args) and any(c.is_(p) for p in through):
+                    if c.dest['l'] not in S:
+                        S.add(c.dest['l'])
+                        changed = True
+    for b in sorted(body.live_blocks()):
+        if body.cleanup[b]:
+            continue
+        for st in body.stmts(b):
+            rv = st['rv']
+            if rv['k'] == 'agg' and 'closure' in rv and any(is_place(o) and op_local(o) in S for o in rv['ops']):
+                sinks.append(('captured', rv['closure'], st['ln']))
+        t = body.term(b)
+        if t['k'] == 'call':
+            c = body.call_at(b)
+            if any(c.is_(p) for p in through):
+                continue
+            for i, a in enumerate(c.args):
+                if is_place(a) and op_local(a) in S:
+                    sinks.append(('call', (c, i), c.ln))
+    if 0 in S and l != 0:
+        sinks.append(('return', None, 0))
+    return S, sinks
+
+
+DROPPING_ADAPTORS = (r'^std::iter::Iterator::(filter|filter_map|skip|take|take_while|skip_while|step_by|nth|last|find|find_map|map_while|'
+                     r'flatten|flat_map|dedup|position)$')
+
+
+def pipeline_after(body, call):
+    """The iterator calls that consume the value produced by `call`, one after the other (map -> filter -> collect ...)."""
+    out = []
+    cur = call
+    for _ in range(12):
+        nxt = None
+        for c in body.calls():
+            if c is cur or not c.args or not is_place(c.args[0]):
+                continue
+            l, _d = resolve_copy(body, op_local(c.args[0]))
+            if l == cur.dest['l'] or op_local(c.args[0]) == cur.dest['l']:
+                nxt = c
+                break
+        if nxt is None:
+            break
+        out.append(nxt)
+        cur = nxt
+    return out
+
+
+def absence_is_an_error(F, fb, g):
+    """The Option returned by lookup `g` (in body fb): does its None force an error out of fb (and, when fb is a closure run by an
+    iterator adaptor, out of the function that runs the adaptor)?  Returns (ok, why)."""
+    forced = False
+    why = 'a missing entry is not turned into an error'
+    # (A) ok_or / ok_or_else and then `?` or return
+    for c in fb.calls(r'^std::option::Option::<T>::ok_or(_else)?$'):
+        if not c.args or not is_place(c.args[0]):
+            continue
+        l, d = resolve_copy(fb, op_local(c.args[0]))
+        if not (l == g.dest['l'] or (d is not None and d.kind == 'call' and d.call is g)):
+            continue
+        for ts in try_sites(fb):
+            if ts.src_def is not None and ts.src_def.kind == 'call' and ts.src_def.call is c and ts.residual is not None:
+                forced = True
+        if flows_to(fb, c.dest['l']):
+            forced = True
+    # (B) a match whose None arm cannot reach the return without an explicit error
+    if not forced:
+        errs = [e.b for e in error_exits(fb) if e.kind == 'explicit']
+        pres = present_edges(fb, g)
+        for (sb, tgt) in pres:
+            others = [s for s in fb.succs[sb] if s != tgt]
+            rets = fb.return_blocks()
+            if others and errs and all(not any(r in fb.reach(o, avoid_blocks=tuple(errs)) for r in rets) for o in others):
+                forced = True
+    if not forced:
+        return False, why
+    if fb.kind != 'Closure':
+        return True, ''
+    # the closure's error must leave the adaptor chain as an error
+    cons = closure_consumers(F, fb)
+    if not cons:
+        return False, 'the closure that looks the entry up is not run by an iterator'
+    for (pb, cc, _i) in cons:
+        if cc.is_(r'^std::iter::Iterator::(try_for_each|try_fold)$'):
+            continue
+        if not cc.is_(r'^std::iter::Iterator::map$'):
+            return False, 'the lookup runs inside %s: its error does not stop the walk' % cc.name
+        pipe = pipeline_after(pb, cc)
+        if any(x.is_(DROPPING_ADAPTORS) for x in pipe):
+            return False, 'errors are dropped by %s' % [x.name for x in pipe if x.is_(DROPPING_ADAPTORS)][0]
+        last = pipe[-1] if pipe else None
+        fin_ = [x for x in pipe if x.is_(r'^std::iter::Iterator::(collect|try_for_each|try_fold|sum|product)$')]
+        if not fin_ or not ('Result<' in fin_[-1].full or fin_[-1].is_(r'try_')):
+            return False, 'the results are not gathered into a Result (%s)' % (last.name if last else 'no consumer')
+    return True, ''
